@@ -36,6 +36,17 @@ def _known(st, f, ctx, x, pol):
     return bool(a) and all(('G:%s=%s' % (k, 'T' if p else 'F')) in st for k, p in a)
 
 
+def _mirror(out, ls, nop, rs, p):
+    """the same comparison with its operands swapped (`a < b` is `!(b <= a)`): a rule must not care which way round the source
+    spells a comparison"""
+    if nop == '<':
+        out.append(('%s <= %s' % (rs, ls), not p))
+    elif nop == '<=':
+        out.append(('%s < %s' % (rs, ls), not p))
+    elif nop == '==':
+        out.append(('%s == %s' % (rs, ls), p))
+
+
 def atoms(f, ctx, x, pol, out=None, depth=0, st=None):
     """Decompose condition expr x taken with polarity pol into atomic facts
     [(key, polarity)].  Only sound decompositions: (a&&b)=T, (a||b)=F, !a; and, using the facts
@@ -90,6 +101,8 @@ def atoms(f, ctx, x, pol, out=None, depth=0, st=None):
             return atoms(f, ctx, l, not p, out, depth + 1, st)
         rs = str(rc) if rc is not None else f.show(r, ctx)
         out.append(('%s %s %s' % (f.show(l, ctx), nop, rs), p))
+        if rc is None:
+            _mirror(out, f.show(l, ctx), nop, rs, p)
         # additional derived facts for orderings against constants
         if rc is not None and nop == '<' and p and rc <= 0:
             pass
@@ -106,6 +119,7 @@ def atoms(f, ctx, x, pol, out=None, depth=0, st=None):
             nop, same = NEG[e['op']]
             p = pol if same else (not pol)
             out.append(('%s %s %s' % (f.show(l, ctx), nop, f.show(r, ctx)), p))
+            _mirror(out, f.show(l, ctx), nop, f.show(r, ctx), p)
             return out
     if k == 'call' and is_conversion(e) and not e.get('args'):
         # conversion operator: truthiness of the object
